@@ -4,11 +4,13 @@
 // Ghost store model (tblSet, blkSet, tableOf, blockOf, R3, sortedKeys, listsAll): /verif/spec/store.spec.
 package prune
 
+// (C13: the index and the profile of a table are deleted only after the table object itself is gone, so a crash between
+// the deletes never leaves a table that is reported present without its index.)
 // The table sweep. Proved here: the slot look-ups never index out of range (also for a commit whose table is absent, as with
 // shallow commits), the binary-search predicate of the table look-up computes the byte-order comparison of checksums and is monotone on a
 // sorted listing, and every loop terminates. Which slots end up marked is NOT proved (see /verif/DESIGN.md, C12).
 //@ func pruneTables$1
-//@   props C12
+//@   props C12 C13
 //@   loop-candidates
 //@   requires db != nil
 //@   requires sortedKeys(allBlockKeys) && listsAll(allBlockKeys, blkSet, db) && sortedKeys(allBlockIdxKeys) && listsAll(allBlockIdxKeys, blkIdxSet, db)
@@ -18,6 +20,8 @@ package prune
 //@   search 1: j => !sumlt(sid(tableHashes[j]), sid(commit.Table))
 //@   search 2: j => !sumlt(sid(allBlockKeys[j]), sid(blk))
 //@   search 3: j => !sumlt(sid(allBlockIdxKeys[j]), sid(blk))
+//@   callsite DeleteTableIndex [C13]: !member2(tblSet, s, sid(sum))
+//@   callsite DeleteTableProfile [C13]: !member2(tblSet, s, sid(sum))
 //@   callsite DeleteTable [C12]: forall(k, 0, len(survivingCommits), tableOf(sid(survivingCommits[k])) != sid(sum))
 //@   final [C12] err == nil ==> markedIdx(tableHashes, tableFound, allBlockIdxKeys, keepBlockIndex, len(tableHashes))
 //@   final [C12] err == nil ==> markedBlk(tableHashes, tableFound, allBlockKeys, keepBlock, len(tableHashes))
